@@ -73,6 +73,27 @@ func c11Mapper(a uint32) (refmap.Class, uint32) {
 	return c, p - refmap.ClassBase[c]
 }
 
+// c11ConsoleWindow: is the bus address inside one of the memory windows the emulated console
+// documents (CreateEmulator: ROM in the upper half of banks $00-$3F/$80-$BF, SRAM in the lower half
+// of banks $70.. and $F0.. for as many 32 KiB banks as the SRAM array holds, WRAM in $7E-$7F and
+// the low 8 KiB of banks $00-$3F/$80-$BF)? Only membership is taken from this table; which cell
+// backs the address is the mapper's word.
+func c11ConsoleWindow(a uint32, sramBanks uint32) bool {
+	b, o := a>>16, a&0xFFFF
+	sys := b <= 0x3F || (b >= 0x80 && b <= 0xBF)
+	switch {
+	case b == 0x7E || b == 0x7F:
+		return true
+	case sys && o >= 0x8000:
+		return true
+	case sys && o < 0x2000:
+		return true
+	case o < 0x8000 && ((b >= 0x70 && b < 0x70+sramBanks && b < 0x7E) || (b >= 0xF0 && b < 0xF0+sramBanks)):
+		return true
+	}
+	return false
+}
+
 func c11Array(s *emulator.System, c refmap.Class) []byte {
 	switch c {
 	case refmap.ROM:
@@ -147,6 +168,9 @@ func replayC11(raw json.RawMessage) (string, error) {
 			id |= uint32(v) << (8 * k)
 		}
 		cls, off := refmap.Class(id>>28), id&0x0FFFFFFF
+		if cls == refmap.Unmapped && mc != refmap.Unmapped && c11ConsoleWindow(c.Addr, uint32(len(s.SRAM)>>15)) {
+			return fmt.Sprintf("read $%06x lies in the console's %v window (mapper: %v[$%x]) but is not backed by that array", c.Addr, mc, mc, mo), fmt.Errorf("unexplained:memory-window-not-backed")
+		}
 		if cls == refmap.Unmapped || mc == refmap.Unmapped {
 			return fmt.Sprintf("emulator: class %v, mapper: class %v — not both memory, outside the property", cls, mc), nil
 		}
@@ -188,9 +212,13 @@ func runC11(r *report.Run) {
 		o uint32
 	}
 	layers := map[tgt][]uint32{}
+	sramBanks := uint32(len(emulator.System{}.SRAM) >> 15)
 	for a := uint32(0); a < 1<<24; a++ {
 		if unatt[a] {
 			unattached++
+			if mc, mo := c11Mapper(a); mc != refmap.Unmapped && c11ConsoleWindow(a, sramBanks) {
+				r.Violation(fmt.Sprintf("unexplained:memory-window-not-backed:%v", mc), fmt.Sprintf("$%06x lies in the console's %v window (mapper: %v[$%x]) but nothing is attached there", a, mc, mc, mo), c11Case{"read", a})
+			}
 			continue
 		}
 		cls, off := refmap.Class(ids[a]>>28), ids[a]&0x0FFFFFFF
@@ -202,6 +230,13 @@ func runC11(r *report.Run) {
 			backed++
 		}
 		mc, mo := c11Mapper(a)
+		if cls == refmap.Unmapped && mc != refmap.Unmapped && c11ConsoleWindow(a, sramBanks) {
+			// inside a documented memory window of the console, translated by the mapper, yet not
+			// backed by the array the mapper designates (I/O or nothing answers there)
+			disagreements++
+			r.Violation(fmt.Sprintf("unexplained:memory-window-not-backed:%v", mc), fmt.Sprintf("read $%06x lies in the console's %v window (mapper: %v[$%x]) but is not backed by that array", a, mc, mc, mo), c11Case{"read", a})
+			continue
+		}
 		if cls == refmap.Unmapped || mc == refmap.Unmapped {
 			continue
 		}
